@@ -39,6 +39,10 @@ struct LibImage {
 };
 extern LibImage g_img;                 // the statically linked library
 bool load_image(const char *path, LibImage &out); // dlopen copy
+// two independent copies of the library (C16 other-image mode); nullptr if not available
+LibImage *image_copy(int which);
+// make every mapping of a copy inaccessible (the crashed process is gone) / accessible again
+bool image_protect(LibImage *img, bool inaccessible);
 
 // ---- trampolined calls
 struct CallCtx {
